@@ -66,8 +66,9 @@ theorem C13_inverse_partial (W : Nat → Bool) (t : Tmpl) (d : DNA) (v : Tmpl)
   cases hdec'
   exact henc rfl hwf hdist hnf
 
-/-- Strict validity implies what `validate` accepts … -/
-theorem C13_strict_le (W : Nat → Bool) (t : Tmpl) (d : DNA)
+/-- The same as an existence statement: a strictly valid DNA object of a distinguishable template
+decodes, and the decoded value encodes back to it. -/
+theorem C13_inverse_exists (W : Nat → Bool) (t : Tmpl) (d : DNA)
     (hwf : wfT t = true) (hdist : DistT W t) (hnf : nfD d = true)
     (hv : validG true (dnaSpec W t) d = true) :
     ∃ v, decode W t d = .ok v ∧ encode W t v = .ok d := by
@@ -85,7 +86,7 @@ def tTwoFloats : Tmpl :=
 /-- `DNA(5, [0.0, 1.0])`: accepted by `validate`, the value 5 is ignored by decode. -/
 def dStray : DNA := .mk (some (.idx 5)) [.mk (some (.flt ⟨0, 0⟩)) [], .mk (some (.flt ⟨1, 0⟩)) []]
 
-/-- … and the full statement fails on the pinned tree: `validate` and `decode` ignore a stray
+/-- The full statement fails on the pinned tree: `validate` and `decode` ignore a stray
 value on the root of a multi-element space, `encode` returns `DNA([0.0, 1.0])` (finding F53,
 replayed on the code on every run). -/
 theorem C13_inverse_counterexample : ¬ C13_inverse_Full := by
